@@ -13,6 +13,7 @@ import (
 	"net"
 	"os"
 	"sort"
+	"strings"
 	"sync"
 	"time"
 
@@ -950,9 +951,83 @@ func runIdle(c *fw.Ctx) {
 		recs[k] = hmods.Track("udp:" + addrs[k].String())
 		pc.Inject(makeDatagram(k, 1, 40), addrs[k])
 	}
+	// beside them: one client of a second server whose handler takes 1.2 s to wind down after its association expired.
+	// The association is over when the handler's read reports it; datagrams that the client sends from then on belong
+	// to a new association, even while the old handler is still winding down.
+	lingerDone := make(chan string, 1)
+	go func() {
+		name2 := vnet.UniqueName("c09idle")
+		pc2 := vnet.NewNamedPacketConn(name2)
+		cfg2 := fmt.Sprintf(`{"servers":{"s":{"listen":["verifudp/%s:1"],"routes":[{"handle":[{"handler":"verif_udp","name":"u","linger_ms":1200}]}],"matching_timeout":"2s"}}}`, name2)
+		app2, err := drive.StartAppConfig(cfg2, "")
+		if err != nil {
+			lingerDone <- "config rejected: " + err.Error()
+			return
+		}
+		defer app2.Stop()
+		a := clientAddr(9000)
+		rec := hmods.Track("udp:" + a.String())
+		defer hmods.Untrack("udp:" + a.String())
+		pc2.Inject(makeDatagram(9000, 1, 40), a)
+		ended := func() (bool, int) {
+			first := 0
+			for _, e := range rec.Events() {
+				if e.Kind == "udp-start" && first == 0 {
+					first = e.N
+				}
+				if e.Kind == "udp-end" {
+					return true, first
+				}
+			}
+			return false, first
+		}
+		deadline := time.Now().Add(40 * time.Second)
+		var first int
+		for {
+			var ok bool
+			if ok, first = ended(); ok {
+				break
+			}
+			if time.Now().After(deadline) {
+				lingerDone <- "the lingering handler's association did not expire within 40 s"
+				return
+			}
+			time.Sleep(time.Millisecond)
+		}
+		for p := 0; p < 5; p++ {
+			pc2.Inject(makeDatagram(9000, 2+p, 40), a)
+			time.Sleep(60 * time.Millisecond)
+		}
+		time.Sleep(400 * time.Millisecond) // (still within the old handler's 1.2 s)
+		fresh, returned := false, false
+		for _, e := range rec.Events() {
+			if e.Kind == "udp-read" && e.N != first {
+				fresh = true
+			}
+			if e.Kind == "udp-return" {
+				returned = true
+			}
+		}
+		switch {
+		case returned:
+			lingerDone <- "inconclusive: the old handler had returned before the probes were judged"
+		case !fresh:
+			lingerDone <- "none of five datagrams sent after the association had expired (while its handler was still winding down) was served by a new association"
+		default:
+			lingerDone <- ""
+		}
+	}()
 	time.Sleep(31500 * time.Millisecond)
 	for k := range addrs {
 		pc.Inject(makeDatagram(k, 2, 40), addrs[k])
+	}
+	switch msg := <-lingerDone; {
+	case msg == "":
+		c.Obs("idle_expiry_with_lingering_handler", 1)
+	case strings.HasPrefix(msg, "inconclusive"):
+		c.Inconclusive("idle: " + msg)
+	default:
+		c.Violation("C09 no-fresh-association [idle, handler winding down]", msg, nil)
 	}
 	time.Sleep(500 * time.Millisecond)
 	for k, rec := range recs {
